@@ -34,6 +34,21 @@ type c08FS struct {
 	inner   storage.FileSystem
 	scratch storage.FileSystem // where a dead instance's writes end up (nobody else reads it)
 	dead    *atomic.Bool
+	gate    atomic.Pointer[c08Gate]
+}
+
+// c08Gate holds back one Save of the `checkpoints` file: the writer announces itself on reached and waits for open.
+type c08Gate struct {
+	armed   atomic.Bool
+	reached chan struct{}
+	open    chan struct{}
+}
+
+func (f *c08FS) armGate() *c08Gate {
+	g := &c08Gate{reached: make(chan struct{}), open: make(chan struct{})}
+	g.armed.Store(true)
+	f.gate.Store(g)
+	return g
 }
 
 func newC08FS(inner storage.FileSystem, dead bool) *c08FS {
@@ -96,6 +111,10 @@ func (f *c08NewFile) Write(p []byte) (int, error) {
 }
 
 func (f *c08NewFile) Save() error {
+	if g := f.fs.gate.Load(); g != nil && f.proto.Name() == "checkpoints" && g.armed.CompareAndSwap(true, false) {
+		close(g.reached)
+		<-g.open
+	}
 	f.mu.Lock()
 	defer f.mu.Unlock()
 	target := f.fs.inner
@@ -242,6 +261,7 @@ type c08Run struct {
 	uriID    map[string]int
 	snap     map[uint64]map[string]string
 	corrupt  string
+	held     *c08Held
 	keep     []any
 }
 
@@ -304,6 +324,10 @@ func (r *c08Run) crash() {
 		return
 	}
 	r.fs.dead.Store(true)
+	if r.held != nil {
+		close(r.held.gate.open) // the held write of the dead instance goes nowhere
+		r.held = nil
+	}
 	r.s.freeEverything()
 	db, waits := r.db, r.waits
 	done := make(chan struct{})
@@ -320,6 +344,61 @@ func (r *c08Run) crash() {
 	}
 	r.keep = append(r.keep, db)
 	r.db = nil
+}
+
+// c08Held is a save of the checkpoints document stopped at the gate inside CheckpointList.Save.
+type c08Held struct {
+	gate *c08Gate
+	id   uint64 // the checkpoint whose handle the save returns (cd) …
+	isCd bool   // … or a retention update
+	res  chan c08SaveRes
+}
+
+type c08SaveRes struct {
+	h   recovery.CheckpointHandle
+	err error
+}
+
+// listLocked: a save is held and the list mutex is held with it, so any other list operation would wait.
+func (r *c08Run) listLocked() bool {
+	return r.held != nil && r.db != nil && r.db.VerifCheckpointListLocked()
+}
+
+// hold starts call, whose save of the checkpoints file stops at the gate; reports whether the gate was reached.
+func (r *c08Run) hold(id uint64, isCd bool, call func() (recovery.CheckpointHandle, error)) bool {
+	g := r.fs.armGate()
+	res := make(chan c08SaveRes, 1)
+	go func() {
+		defer func() {
+			if p := recover(); p != nil {
+				res <- c08SaveRes{err: fmt.Errorf("panic %v", p)}
+			}
+		}()
+		h, err := call()
+		res <- c08SaveRes{h, err}
+	}()
+	select {
+	case <-g.reached:
+		r.held = &c08Held{gate: g, id: id, isCd: isCd, res: res}
+		return true
+	case <-time.After(schedGrace):
+		g.armed.Store(false)
+		return false
+	}
+}
+
+func (r *c08Run) keptBy(ids []uint64) []uint64 {
+	var newest uint64
+	for _, id := range ids {
+		newest = max(newest, id)
+	}
+	var kept []uint64
+	for _, id := range r.lineage {
+		if slices.Contains(ids, id) || id > newest {
+			kept = append(kept, id)
+		}
+	}
+	return kept
 }
 
 type c08Doc struct {
@@ -371,7 +450,7 @@ func (r *c08Run) snapshot(h recovery.CheckpointHandle) {
 
 func (r *c08Run) retainedDone(id uint64) bool {
 	_, ok := r.handles[id]
-	return ok && slices.Contains(r.lineage, id)
+	return ok && slices.Contains(r.lineage, id) && !(r.held != nil && r.held.isCd && r.held.id == id)
 }
 
 func c08Scan(db *dkv.DB) (out string) {
@@ -447,6 +526,10 @@ func runC08Trace(c lib.Case) []string {
 			emit(r.bg(f[1]))
 		case "ckpt":
 			id, _ := strconv.ParseUint(f[1], 10, 64)
+			if r.listLocked() {
+				emit("blocked") // CheckpointList.Add would wait for the held save (with db.mu held)
+				continue
+			}
 			if slices.Contains(r.lineage, id) || r.waits[id] != nil {
 				emit("disabled")
 				continue
@@ -473,10 +556,24 @@ func runC08Trace(c lib.Case) []string {
 			}
 			r.phase[id] = 1
 			emit("ok")
-		case "cd":
+		case "cd", "hcd":
 			id, _ := strconv.ParseUint(f[1], 10, 64)
+			if r.listLocked() {
+				emit("blocked")
+				continue
+			}
 			if r.waits[id] == nil || r.phase[id] != 1 {
 				emit("none")
+				continue
+			}
+			if f[0] == "hcd" && r.held == nil {
+				w := r.waits[id]
+				s.releaseCk(id)
+				if r.hold(id, true, w) {
+					emit("held")
+				} else {
+					emit("timeout")
+				}
 				continue
 			}
 			s.releaseCk(id)
@@ -501,13 +598,47 @@ func runC08Trace(c lib.Case) []string {
 			case <-time.After(schedGrace):
 				emit("timeout")
 			}
-		case "retain":
-			ids := c08ParseIDs(f[1])
-			var kept []uint64
-			for _, id := range r.lineage {
-				if slices.Contains(ids, id) {
-					kept = append(kept, id)
+		case "release":
+			if r.held == nil {
+				emit("none")
+				continue
+			}
+			hd := r.held
+			r.held = nil
+			close(hd.gate.open)
+			select {
+			case x := <-hd.res:
+				if x.err != nil {
+					emit("err " + c08Short(x.err.Error()))
+					continue
 				}
+				if hd.isCd {
+					delete(r.waits, hd.id)
+					delete(r.phase, hd.id)
+					r.handles[hd.id] = x.h
+					r.snapshot(x.h)
+				}
+				emit("ok")
+			case <-time.After(schedGrace):
+				emit("timeout")
+			}
+		case "retain", "hretain":
+			ids := c08ParseIDs(f[1])
+			if r.listLocked() {
+				emit("blocked")
+				continue
+			}
+			kept := r.keptBy(ids)
+			if f[0] == "hretain" && r.held == nil && len(kept) > 0 {
+				if r.hold(0, false, func() (recovery.CheckpointHandle, error) {
+					return recovery.CheckpointHandle{}, db.UpdateRetainedCheckpoints(ids)
+				}) {
+					r.lineage = kept
+					emit("held")
+				} else {
+					emit("timeout")
+				}
+				continue
 			}
 			if len(kept) == 0 {
 				emit("refused") // the code panics ("db missing the job's retained checkpoints"): caller contract
@@ -858,6 +989,84 @@ func (g *c08Gen) reopen(id uint64) {
 	g.observe(g.r.Chance(1, 2))
 }
 
+func (g *c08Gen) keptBy(ids []uint64) []uint64 {
+	var newest uint64
+	for _, id := range ids {
+		newest = max(newest, id)
+	}
+	var kept []uint64
+	for _, id := range g.lineage {
+		if slices.Contains(ids, id) || id > newest {
+			kept = append(kept, id)
+		}
+	}
+	return kept
+}
+
+// overlap holds the write of the checkpoints document of one save and issues other list operations meanwhile.
+// With the list mutex held across the write (the code as it is) they all report `blocked` and are repeated
+// after the release; the generator's own bookkeeping assumes exactly that.
+func (g *c08Gen) overlap() {
+	var heldID uint64
+	if p := g.pendingIDs(1); len(p) > 0 && g.r.Chance(2, 3) {
+		heldID = lib.Pick(g.r, p)
+		g.add(fmt.Sprintf("hcd %d", heldID))
+	} else if p := g.pendingIDs(0); len(p) > 0 && g.r.Chance(1, 2) {
+		heldID = lib.Pick(g.r, p)
+		g.add(fmt.Sprintf("cw %d", heldID))
+		g.phase[heldID] = 1
+		g.add(fmt.Sprintf("hcd %d", heldID))
+	} else if len(g.lineage) > 0 {
+		ids := []uint64{g.lineage[len(g.lineage)-1]}
+		if len(g.lineage) > 1 && g.r.Bool() {
+			ids = append(ids, g.lineage[g.r.Intn(len(g.lineage)-1)])
+		}
+		var ss []string
+		for _, id := range ids {
+			ss = append(ss, strconv.FormatUint(id, 10))
+		}
+		g.add("hretain " + strings.Join(ss, ","))
+		g.lineage = g.keptBy(ids)
+	} else {
+		return
+	}
+	probe := g.next // the checkpoint attempted (and blocked) while the save is held
+	var blocked []string
+	for i := g.r.Range(2, 6); i > 0; i-- {
+		switch g.r.Intn(7) {
+		case 0, 1:
+			g.write()
+		case 2:
+			g.add(lib.Pick(g.r, []string{"bg f", "bg c"}))
+		case 3:
+			blocked = append(blocked, fmt.Sprintf("ckpt %d", probe), fmt.Sprintf("cw %d", probe), fmt.Sprintf("cd %d", probe))
+			g.add(fmt.Sprintf("ckpt %d", probe))
+			g.add(fmt.Sprintf("cw %d", probe))
+			g.add(fmt.Sprintf("cd %d", probe))
+		case 4:
+			if p := g.pendingIDs(1); len(p) > 0 {
+				g.add(fmt.Sprintf("cd %d", lib.Pick(g.r, p)))
+			}
+		case 5:
+			if len(g.lineage) > 0 {
+				g.add(fmt.Sprintf("retain %d", g.lineage[len(g.lineage)-1]))
+			}
+		default:
+			if d := g.doneIDs(); len(d) > 0 {
+				g.add(fmt.Sprintf("peek %d", lib.Pick(g.r, d)))
+			}
+		}
+	}
+	g.add("release")
+	if heldID != 0 {
+		g.phase[heldID] = 2
+	}
+	for _, id := range g.doneIDs() {
+		g.add(fmt.Sprintf("peek %d", id))
+	}
+	g.add(fmt.Sprintf("peek %d", probe))
+}
+
 func genC08Ops(r *lib.Rng, n int) []string {
 	g := &c08Gen{r: r, next: 1, phase: map[uint64]int{}}
 	for len(g.ops) < n {
@@ -915,16 +1124,18 @@ func genC08Ops(r *lib.Rng, n int) []string {
 					ss = append(ss, strconv.FormatUint(id, 10))
 				}
 				g.add("retain " + strings.Join(ss, ","))
-				g.lineage = ids
+				g.lineage = g.keptBy(ids)
 			}
 		case x < 91:
 			if d := g.doneIDs(); len(d) > 0 {
 				g.reopen(lib.Pick(r, d))
 			}
-		case x < 98:
+		case x < 95:
 			if d := g.doneIDs(); len(d) > 0 {
 				g.add(fmt.Sprintf("peek %d", lib.Pick(r, d)))
 			}
+		case x < 98:
+			g.overlap()
 		default:
 			g.add("intact")
 		}
@@ -953,6 +1164,11 @@ func c08Fixed() []lib.Case {
 		{Header: "M C08 mem=200 l0=2 amp=1 smallest=1", Ops: []string{"put " + k + " 01", "put 00 " + big, "bg f", "bg f", "bg c", "bg c",
 			"put 00 " + big + "79", "bg f", "bg f", "bg c", "bg c", "bg c", "bg c", "ckpt 1", "cw 1", "cd 1", "reopen 1 same",
 			"put 00 04", "get 00", "scan 00", "scan -", "put " + z + " " + big, "bg f", "bg f", "bg c", "bg c", "bg c", "get 00", "scan -"}, Tags: []string{"regress-D6"}},
+		// overlapping saves: the document write of checkpoint 1 is held while checkpoint 2 is taken and completed
+		// (blocked behind the list mutex in the code as it is, then repeated); both must restore afterwards
+		{Header: hdr, Ops: []string{"put " + k + " 01", "ckpt 1", "cw 1", "hcd 1", "put " + k2 + " 02", "ckpt 2", "cw 2", "cd 2", "release",
+			"peek 1", "peek 2", "ckpt 2", "cw 2", "cd 2", "peek 1", "peek 2", "hretain 2", "put " + k3 + " 03", "ckpt 3", "cw 3", "cd 3", "release",
+			"peek 2", "peek 3", "ckpt 3", "cw 3", "cd 3", "peek 2", "peek 3", "intact"}, Tags: []string{"overlapping-saves"}},
 		// chain: checkpoint → restore (fresh directory) → write → flush → checkpoint → restore → older one gone from the lineage
 		{Header: hdr, Ops: []string{"put " + k + " 01", "ckpt 1", "put " + k2 + " 02", "cw 1", "cd 1", "reopen 1 fresh", "scan -", "put " + k3 + " 03",
 			"put " + z + " " + big, "bg f", "bg f", "ckpt 2", "cw 2", "put " + k + " 09", "cd 2", "peek 1", "peek 2", "retain 2", "peek 1", "reopen 2 same", "scan -", "intact"}, Tags: []string{"chain"}},
@@ -1004,7 +1220,8 @@ func propC08() *lib.Prop {
 		Nontrivial: c08Nontrivial,
 		MObs: func(op string) bool {
 			return strings.HasPrefix(op, "bg ") || strings.HasPrefix(op, "cw ") || strings.HasPrefix(op, "cd ") ||
-				strings.HasPrefix(op, "ckpt ") || strings.HasPrefix(op, "retain ")
+				strings.HasPrefix(op, "ckpt ") || strings.HasPrefix(op, "retain ") || strings.HasPrefix(op, "hcd ") ||
+				strings.HasPrefix(op, "hretain ") || op == "release"
 		},
 	}
 }
